@@ -51,6 +51,7 @@ func writeEvidence(prop string, tier tierCfg, seed int64, ld *loaded, hs []*Harn
 	var samples []interface{}
 	evaluations, distinct, obligations, discharged := 0, 0, 0, 0
 	solverTime := 0.0
+	steps := 0
 	paths := map[string]int{}
 	queries := map[string]int{}
 	for i, r := range results {
@@ -89,11 +90,12 @@ func writeEvidence(prop string, tier tierCfg, seed int64, ld *loaded, hs []*Harn
 				samples = append(samples, sm)
 			}
 		}
-		evaluations += r.SolverStats.Queries + r.SolverStats.CacheHits
+		evaluations += st.Paths + r.SolverStats.Queries + r.SolverStats.CacheHits
 		distinct += len(r.Distinct)
 		obligations += st.Obligations
 		discharged += st.Discharged
 		solverTime += r.SolverStats.Time.Seconds()
+		steps += st.Steps
 		for k, v := range s.Paths {
 			paths[k] += v
 		}
@@ -153,9 +155,12 @@ func writeEvidence(prop string, tier tierCfg, seed int64, ld *loaded, hs []*Harn
 		"coverage": map[string]interface{}{
 			"evaluations":         evaluations,
 			"distinct_nontrivial": distinct,
-			"rule": "evaluations = SMT queries issued (incl. cache hits) by the symbolic executor; distinct_nontrivial = distinct (harness, path-decision-sequence, assertion) " +
+			"rule": "evaluations = symbolic executions of a harness (explored paths) + SMT queries issued by them (incl. cache hits); distinct_nontrivial = distinct (harness, path-decision-sequence, assertion) " +
 				"obligations whose path condition was found satisfiable (infeasible paths are pruned before any obligation is counted); each obligation covers ALL input values satisfying its path condition",
 			"samples":                       samples,
+			"states":                        paths["explored"],
+			"transitions":                   steps,
+			"states_transitions_rule":       "states = feasible symbolic paths explored (each ends in a distinct symbolic state and stands for all input values satisfying its path condition); transitions = SSA instructions interpreted along them (steps of the symbolic machine)",
 			"obligations":                   obligations,
 			"discharged":                    discharged,
 			"traces_validated_against_impl": len(confirmed) + len(mismatched) + len(known),
